@@ -326,16 +326,24 @@ def parse_dump(text):
     return pkgs, funcs
 
 
+class ListingError(Exception):
+    """DomPreorder / DomPostorder of the real code is not a listing of all blocks: a failure of the
+    property's last clause on a concrete function, not a harness problem."""
+
+
 def case_line(f):
     n, B = f["n"], f["blocks"]
     if sorted(B) != list(range(n)):
         raise vlib.HarnessError("dump of %s: block records %s for n=%d" % (f["name"], sorted(B), n))
     pre, post = [None] * n, [None] * n
     for i in range(n):
-        pre[int(B[i]["pre"])] = i
-        post[int(B[i]["post"])] = i
+        a, b = int(B[i]["pre"]), int(B[i]["post"])
+        if not (0 <= a < n and 0 <= b < n):
+            raise ListingError("block %d has position pre=%d post=%d in DomPreorder/DomPostorder of a function with %d blocks" % (i, a, b, n))
+        pre[a] = i
+        post[b] = i
     if None in pre or None in post:
-        raise vlib.HarnessError("dump of %s: listing positions are not a permutation" % f["name"])
+        raise ListingError("DomPreorder/DomPostorder is not a permutation of the blocks: pre=%s post=%s" % (pre, post))
     t = ["chk", str(n), f["recover"], "1" if f["mode"] == "full" else "0", "S"] + [B[i]["succs"] for i in range(n)]
     t += ["P"] + [B[i]["preds"] for i in range(n)] + ["I"] + [B[i]["idom"] for i in range(n)]
     t += ["C"] + [B[i]["dominees"] for i in range(n)]
@@ -474,7 +482,21 @@ class Runner:
         self.stats["packages"] += len(pkgs)
         if not funcs:
             return
-        lines = [case_line(f) for f in funcs]
+        lines, ok_funcs = [], []
+        for f in funcs:
+            try:
+                lines.append(case_line(f))
+                ok_funcs.append(f)
+            except ListingError as e:
+                pk = pkgs.get(f["pid"], {})
+                self.stats["functions"] += 1
+                self.failures.append({"origin": origin, "package": pk.get("path"), "file": pk.get("file"), "function": f["name"],
+                                      "blocks": f["n"], "recover": f["recover"], "mode": f["mode"], "driver_output": "-",
+                                      "case_line": None, "clause": "listings", "details": str(e),
+                                      "source": (sources or {}).get(pk.get("file"))})
+        funcs = ok_funcs
+        if not funcs:
+            return
         outs = vlib.run_model(self.ctx, "C14", lines)
         for f, line, out in zip(funcs, lines, outs):
             if out == "bad-op":
